@@ -14,6 +14,7 @@ var needCapOne = map[string]string{
 }
 
 func runC19(p *Prog, r *Report) {
+	runSweeps(p, r, "C19.14/option-reaches-every-endpoint", "a socket option that endpoints inherit is passed to every dialer and listener of the socket", optionSweeps)
 	optionTypeAgreement(p, r, "C19.12/option-type-agreement")
 	gatedOptionFlags(p, r, "C19.13/gated-option-flags")
 	r.Describe("C19.2/E10c", "every make(chan T, n) fed by an option value has n >= 0 (>= 1 where a blocking re-send under the lock depends on it)")
